@@ -66,10 +66,11 @@ structure Facts where
   removeBoth : Bool           -- remove: list removal and index deletion together; Clear resets both
   optDefaults : Bool          -- options start from the cache's default ttl; WithUpdateTTL(0) keeps the default
   deadlineKernel : Bool       -- deadline(ttl): `ttl <= 0` → MaxInt64, else now()+ttl (kernel regenerated as well)
-  rdsCommands : Bool          -- ttlrds: SetNX | Set(KeepTTL) | Get/GetDel (+Expire) | Del | Scan+Del, redis.Nil → not found
+  rdsCommands : Bool          -- ttlrds: SetNX | Set(KeepTTL) | Get/GetDel (+Expire) | Del, redis.Nil → not found
+  rdsClearIterates : Bool     -- ttlrds Clear: SCAN prefix* driven by its *iterator* (follows the cursor to 0), one DEL per key
 deriving DecidableEq, Repr
 
-def Facts.expected : Facts := ⟨true, true, true, true, true, true, true, true, true, true⟩
+def Facts.expected : Facts := ⟨true, true, true, true, true, true, true, true, true, true, true⟩
 
 /-- configurations for which the property theorems are proved -/
 def Proved (c : Cfg) : Prop := c.setExpiry = .purge ∧ c.indexOrder = .beforeEvict ∧ c.rdsUnit = .seconds
@@ -356,6 +357,21 @@ def Rds.step (c : Cfg) (r : Rds) (nowMs : Int) : Op → Rds × Out
   | .remove k => ({ r with store := rErase k r.store }, .ok)
   | .clear => ({ r with store := [] }, .ok)
   | .tick _ => (r, .ok)
+
+/-! ### `Clear` on redis: SCAN is paged
+
+`SCAN cursor MATCH prefix*` returns one page (COUNT, default 10, bounds the keys examined; a page may be short or
+empty) and a cursor; the iteration is over when the cursor is 0. Redis guarantees that a key present during the
+whole iteration is returned by some page. `Rds.step .clear` (store := []) is what results when every page is
+consumed — fact `rdsClearIterates` — which `clearPages_covering` (Nv/Proofs/C05Scan) proves for every paging. -/
+
+/-- DEL of every key of every page, page after page (the iterator loop of `Clear`) -/
+def clearPages (pages : List (List Key)) (st : List REntry) : List REntry :=
+  pages.foldl (fun st pg => pg.foldl (fun st k => rErase k st) st) st
+
+/-- only the first page is consumed (a single SCAN call whose cursor is dropped) -/
+def clearFirstPage (pages : List (List Key)) (st : List REntry) : List REntry :=
+  clearPages (pages.take 1) st
 
 /-! ### both caches under one clock (milliseconds; the in-memory cache reads whole seconds) -/
 
